@@ -6,7 +6,7 @@ desc=json.loads(subprocess.check_output(['/verif/bin/templvet','-describe']))
 NA=json.load(open('/verif/not_applicable.json')) if __import__('os').path.exists('/verif/not_applicable.json') else {}
 ENV="GOFLAGS=-mod=mod GOPROXY=off GOSUMDB=off GOTOOLCHAIN=local GOWORK=off"
 m={"version":1,
- "setup_cmd":f"cd /verif/tool && {ENV} go build -o ../bin/templvet .",
+ "setup_cmd":f"cd /verif/tool && {ENV} go build -o ../bin/templvet . && cd /repo && GOFLAGS=-mod=readonly GOPROXY=off GOSUMDB=off GOTOOLCHAIN=local GOWORK=off go build ./... ; true",
  "hooks":{"guard":"verif","enable":"none: static analysis instruments nothing; every check loads and type-checks /repo's current working tree (go/packages, from source) on every run","baseline_off_cmd":json.load(open('/root/.vp/BASELINE.json'))["cmd"],"source_commits":[],"add_only":True},
  "engines":[{"name":"templvet","path":"tool","serves_properties":sorted(desc.keys()),"kind_free_text":"repository-specific static analyser over go/packages + go/types + go/cfg + go/ssa; includes GEM, an abstract interpretation of the code generator's emission templates whose paths are parsed as Go"}],
  "checks":[], "notes":"All checks are static: nothing registered here runs templ code, renders a template or runs the test suite. Known findings: /verif/known_findings.json. Developer self-check corpus (not registered): /verif/selfcheck.py + /verif/mutants/. Seeded changes from independent sub-agents: /verif/seeded/.",
